@@ -44,6 +44,7 @@ type Script struct {
 	Reconnects []Rec  `json:"reconnects"`
 	Then       string `json:"then"` // after the listed outcomes: ok | neterr (fail for ever)
 	CRLF       bool   `json:"crlf"`
+	Chunks     []int  `json:"chunks,omitempty"` // sizes of successive client-side body reads (empty: unlimited)
 }
 
 func genScript(rt *rapid.T) Script {
@@ -58,6 +59,9 @@ func genScript(rt *rapid.T) Script {
 	}
 	if s.IDs {
 		s.Priming = rapid.Bool().Draw(rt, "priming")
+	}
+	if rapid.IntRange(0, 2).Draw(rt, "chunked") == 0 {
+		s.Chunks = rapid.SliceOfN(rapid.IntRange(1, 120), 1, 6).Draw(rt, "chunks")
 	}
 	for i, n := 0, rapid.IntRange(0, 4).Draw(rt, "nrec"); i < n; i++ {
 		r := Rec{Kind: rapid.SampledFrom([]string{"ok", "ok", "ok", "neterr", "neterr", "502", "503", "404", "empty"}).Draw(rt, "rkind")}
@@ -294,7 +298,7 @@ func runInBubble(s Script) (res vt.Result) {
 		s.CutKind = "err"
 	}
 	f := &fake{s: s}
-	tr := &memhttp.Transport{Handler: f}
+	tr := &memhttp.Transport{Handler: f, Chunks: s.Chunks}
 	netErrs := 0
 	tr.Fail = func(r *http.Request) error {
 		if r.Method != "GET" || r.Header.Get("Last-Event-ID") == "" {
@@ -315,10 +319,14 @@ func runInBubble(s Script) (res vt.Result) {
 	}
 	var hmu sync.Mutex
 	var seen []int
+	var garbled []string
 	client := mcp.NewClient(&mcp.Implementation{Name: "cli", Version: "1"}, &mcp.ClientOptions{
 		ProgressNotificationHandler: func(ctx context.Context, r *mcp.ProgressNotificationClientRequest) {
 			hmu.Lock()
 			seen = append(seen, int(r.Params.Progress))
+			if want := fmt.Sprintf("m%d", int(r.Params.Progress)); r.Params.Message != want {
+				garbled = append(garbled, fmt.Sprintf("progress %v carried message %q, want %q", r.Params.Progress, r.Params.Message, want))
+			}
 			hmu.Unlock()
 		},
 	})
@@ -408,6 +416,9 @@ func runInBubble(s Script) (res vt.Result) {
 	}
 	hmu.Lock()
 	got := append([]int(nil), seen...)
+	for _, g := range garbled {
+		res.Failf("payload altered in transit: %s", g)
+	}
 	hmu.Unlock()
 
 	// Which events were completely delivered, per body; what the next Last-Event-ID has to be.
@@ -583,6 +594,9 @@ func finish(res vt.Result, s Script, truncated bool, gets, netErrs int) vt.Resul
 	res.Class("cut_" + s.CutKind)
 	if !s.IDs {
 		res.Class("no_event_ids")
+	}
+	if len(s.Chunks) > 0 {
+		res.Class("chunked_reads")
 	}
 	return res
 }
